@@ -5,7 +5,7 @@ namespace CaddyModel.Gen
 def matchHostLargeThreshold : Option Nat := some 100
 
 /-- connection-policy lists longer than this build the SNI index (connpolicy.go) -/
-def sniIndexThreshold : Option Nat := none
+def sniIndexThreshold : Option Nat := some 30
 
 /-- `replace` gives up after more than this many unclosed placeholders (replacer.go) -/
 def replacerUnclosedLimit : Option Nat := some 100
